@@ -1,4 +1,4 @@
-SPECIFICATION Spec
+SPECIFICATION ExportSpec
 CONSTANTS
   Callers = {"c0", "c1"}
   Programs <- ProgsL1
@@ -9,8 +9,7 @@ CONSTANTS
   EstOf <- EstL1
   WithConsumer = FALSE
   WithSweeper = FALSE
-  KeepHist = FALSE
-INVARIANT NoViolation
-INVARIANT Inv_C01
-INVARIANT Inv_TypeOK
+  KeepHist = TRUE
 CHECK_DEADLOCK FALSE
+INVARIANT ExportScenario
+INVARIANT ExportBehaviour
